@@ -43,14 +43,15 @@ SearchLayers(a)    == {n \in 1..N(a) : Searchable(a, n)}
 CallSites(a, m)    == {n \in 1..N(a) : IsLayer(a, n) /\ Owner(a, n) = m}
 
 (* ----------------------------- static shapes --------------------------- *)
-RECURSIVE Ch(_, _), Sp(_, _), SumCh(_, _, _), SumSp(_, _, _)
-Pow(x, e) == IF e = 1 THEN x ELSE x * x
+\* Sp = length (1-D) / height (2-D); SpW = width (2-D; 1 for 1-D nets).  "catt" concatenates over the
+\* time axis (1-D) or the height axis (2-D), so 2-D tensors may be rectangular.
+RECURSIVE Ch(_, _), Sp(_, _), SpW(_, _), SumCh(_, _, _), SumSp(_, _, _)
 Ch(a, n) ==
     IF n = 0 THEN a.c0
     ELSE LET nd == Nd(a, n) IN
          CASE nd.op = "conv" -> IF nd.dw THEN Ch(a, nd.ins[1]) ELSE nd.out
            [] nd.op = "lin"  -> nd.out
-           [] nd.op = "flat" -> Ch(a, nd.ins[1]) * Pow(Sp(a, nd.ins[1]), a.dim)
+           [] nd.op = "flat" -> Ch(a, nd.ins[1]) * Sp(a, nd.ins[1]) * SpW(a, nd.ins[1])
            [] nd.op = "cat"  -> SumCh(a, nd.ins, 1)
            [] OTHER          -> Ch(a, nd.ins[1])
 Sp(a, n) ==
@@ -63,6 +64,14 @@ Sp(a, n) ==
            [] nd.op = "pool" -> Sp(a, nd.ins[1]) \div 2
            [] nd.op = "catt" -> SumSp(a, nd.ins, 1)
            [] OTHER          -> Sp(a, nd.ins[1])
+SpW(a, n) ==
+    IF a.dim = 1 THEN 1
+    ELSE IF n = 0 THEN a.sp
+    ELSE LET nd == Nd(a, n) IN
+         CASE nd.op = "conv" -> ((SpW(a, nd.ins[1]) - 1) \div nd.s) + 1
+           [] nd.op \in {"lin", "flat", "gsq"} -> 1
+           [] nd.op = "pool" -> SpW(a, nd.ins[1]) \div 2
+           [] OTHER          -> SpW(a, nd.ins[1])
 SumCh(a, ins, i) == IF i > Len(ins) THEN 0 ELSE Ch(a, ins[i]) + SumCh(a, ins, i + 1)
 SumSp(a, ins, i) == IF i > Len(ins) THEN 0 ELSE Sp(a, ins[i]) + SumSp(a, ins, i + 1)
 RECURSIVE IsFlat(_, _)
@@ -71,7 +80,7 @@ IsFlat(a, n) == IF n = 0 THEN FALSE
                        [] Op(a, n) = "conv" -> FALSE
                        [] OTHER -> IsFlat(a, In1(a, n))
 \* number of spatial positions of a (non-flat) tensor
-Positions(a, n) == Pow(Sp(a, n), a.dim)
+Positions(a, n) == Sp(a, n) * SpW(a, n)
 
 (* ------------------- sharing components (build_shared_features_map) ---- *)
 \* edges of the sharing graph: dataflow edges except those entering a defining or concat node
